@@ -1893,107 +1893,185 @@ calls that matter for synchronisation and data flow, the lock regions and (for d
 conditions, in source order.  A re-ordering, a dropped call or a changed condition breaks these
 obligations even when no sampled input or schedule shows a difference; the check then searches for
 a failing input. -/
-theorem c09_shape_router_Router_Send :
-    Shapes.network_router_Router_Send =
-   ["msgTraffic.updateTx", "ServerIdentity.GetID", "e.GetID", "GetID().Equal", "MessageType",
-     "r.Dispatch", "Marshal", "e.GetID", "r.connection", "r.connect", "c.Send", "r.connect",
-     "c.Send"] := rfl
+theorem c09_shape_router_Router_Send_b4 :
+    Shapes.network_router_Router_Send_b4 =
+   ["range:_,msg:=msgs{", "if:(msg==nil)", "return:0,xerrors.New(\"\")", "}",
+     "if:(len(msgs)==0)", "return:0,xerrors.New(\"\")", "msgTraffic.updateTx",
+     "if:e.GetID().Equal(r.ServerIdentity.GetID())", "range:_,msg:=msgs{", "MessageType",
+     "assign:packet:=&Envelope{ServerIdentity:e,MsgType:MessageType(msg),Msg:msg}", "r.Dispatch",
+     "assign:err:=r.Dispatch(packet)", "if:(err!=nil)", "return:0,xerrors.Errorf(\"\",err)",
+     "Marshal", "assign:b,err:=Marshal(msg)", "if:(err!=nil)",
+     "return:0,xerrors.Errorf(\"\",err)", "assign:sent+=uint64(len(b))", "}", "return:sent,nil",
+     "e.GetID", "r.connection", "assign:c:=r.connection(e.GetID())", "if:(c==nil)", "r.connect",
+     "assign:c,sentLen,err=r.connect(e)", "assign:totSentLen+=sentLen", "if:(err!=nil)",
+     "return:totSentLen,xerrors.Errorf(\"\",err)", "range:_,msg:=msgs{", "c.Send",
+     "assign:sentLen,err:=c.Send(msg)", "assign:totSentLen+=sentLen", "if:(err!=nil)",
+     "r.connect", "assign:c,sentLen,err:=r.connect(e)", "assign:totSentLen+=sentLen",
+     "if:(err!=nil)", "return:totSentLen,xerrors.Errorf(\"\",err)", "c.Send",
+     "assign:sentLen,err=c.Send(msg)", "assign:totSentLen+=sentLen", "if:(err!=nil)",
+     "return:totSentLen,xerrors.Errorf(\"\",err)", "}", "return:totSentLen,nil"] := rfl
 
-theorem c09_shape_router_Router_connect :
-    Shapes.network_router_Router_connect =
-   ["host.Connect", "c.Send", "c.Close", "verifC10Point", "r.registerConnection", "c.Close",
-     "verifC10Point", "r.launchHandleRoutine"] := rfl
+theorem c09_shape_router_Router_connect_b4 :
+    Shapes.network_router_Router_connect_b4 =
+   ["host.Connect", "assign:c,err:=r.host.Connect(si)", "if:(err!=nil)",
+     "return:nil,0,xerrors.Errorf(\"\",err)", "c.Send",
+     "assign:sentLen,err=c.Send(r.ServerIdentity)", "if:(err!=nil)", "c.Close",
+     "assign:cerr:=c.Close()", "if:(cerr!=nil)", "return:nil,sentLen,xerrors.Errorf(\"\",err)",
+     "verifC10Point", "r.registerConnection", "assign:err=r.registerConnection(si,c)",
+     "if:(err!=nil)", "c.Close", "assign:cerr:=c.Close()", "if:(cerr!=nil)",
+     "return:nil,sentLen,xerrors.Errorf(\"\",err)", "verifC10Point", "r.launchHandleRoutine",
+     "assign:err=r.launchHandleRoutine(si,c)", "if:(err!=nil)",
+     "return:nil,sentLen,xerrors.Errorf(\"\",err)", "return:c,sentLen,nil"] := rfl
 
-theorem c09_shape_router_Router_removeConnection :
-    Shapes.network_router_Router_removeConnection =
-   ["r.Lock", "defer:r.Unlock", "si.GetID", "si.GetID"] := rfl
+theorem c09_shape_router_Router_removeConnection_b4 :
+    Shapes.network_router_Router_removeConnection_b4 =
+   ["r.Lock", "defer:r.Unlock", "si.GetID", "assign:arr:=r.connections[si.GetID()]",
+     "range:i,cc:=arr{", "if:(c==cc)", "assign:toDelete=i", "}", "if:(toDelete==-1)", "return:",
+     "assign:arr[toDelete]=arr[(len(arr)-1)]", "assign:arr[(len(arr)-1)]=nil",
+     "assign:r.connections[si.GetID()]=arr[:(len(arr)-1)]"] := rfl
 
-theorem c09_shape_router_Router_handleConn :
-    Shapes.network_router_Router_handleConn =
-   ["defer{", "c.Close", "c.Rx", "c.Tx", "traffic.updateRx", "traffic.updateTx", "wg.Done",
-     "r.removeConnection", "verifC10Point", "}", "verifC10Point", "c.Remote", "c.Receive",
-     "verifC10Point", "r.Lock", "r.Unlock", "recv:paused", "r.Lock", "r.Unlock", "r.Closed",
-     "r.triggerConnectionErrorHandlers", "r.triggerConnectionErrorHandlers",
-     "r.triggerConnectionErrorHandlers", "verifC10Point", "msgTraffic.updateRx", "r.Dispatch"] := rfl
+theorem c09_shape_router_Router_handleConn_b4 :
+    Shapes.network_router_Router_handleConn_b4 =
+   ["defer{", "c.Close", "assign:err:=c.Close()", "if:(err!=nil)", "c.Rx", "c.Tx",
+     "assign:rx,tx:=c.Rx(),c.Tx()", "traffic.updateRx", "traffic.updateTx", "wg.Done",
+     "r.removeConnection", "verifC10Point", "}", "verifC10Point", "c.Remote",
+     "assign:address:=c.Remote()", "for:{", "c.Receive", "assign:packet,err:=c.Receive()",
+     "verifC10Point", "r.Lock", "assign:paused:=r.paused", "r.Unlock", "if:(paused!=nil)",
+     "recv:paused", "r.Lock", "assign:r.paused=nil", "r.Unlock", "return:", "if:r.Closed()",
+     "return:", "if:(err!=nil)", "if:xerrors.Is(err,ErrTimeout)",
+     "r.triggerConnectionErrorHandlers", "return:",
+     "if:(xerrors.Is(err,ErrClosed)||xerrors.Is(err,ErrEOF))",
+     "r.triggerConnectionErrorHandlers", "return:", "if:xerrors.Is(err,ErrUnknown)",
+     "r.triggerConnectionErrorHandlers", "return:", "continue",
+     "assign:packet.ServerIdentity=remote", "verifC10Point", "msgTraffic.updateRx", "r.Dispatch",
+     "assign:err:=r.Dispatch(packet)", "if:(err!=nil)", "}"] := rfl
 
-theorem c09_shape_router_Router_triggerConnectionErrorHandlers :
-    Shapes.network_router_Router_triggerConnectionErrorHandlers =
-   ["v"] := rfl
+theorem c09_shape_router_Router_triggerConnectionErrorHandlers_b4 :
+    Shapes.network_router_Router_triggerConnectionErrorHandlers_b4 =
+   ["range:_,v:=r.connectionErrorHandlers{", "v", "}"] := rfl
 
-theorem c09_shape_Context_SendRaw :
-    Shapes.context_Context_SendRaw =
-   ["server.Send"] := rfl
+theorem c09_shape_Context_SendRaw_b4 :
+    Shapes.context_Context_SendRaw_b4 =
+   ["server.Send", "assign:_,err:=c.server.Send(si,msg)", "if:(err!=nil)",
+     "return:xerrors.Errorf(\"\",err)", "return:nil"] := rfl
 
-theorem c09_shape_TreeNodeInstance_SendTo :
-    Shapes.treenode_TreeNodeInstance_SendTo =
+theorem c09_shape_TreeNodeInstance_SendTo_b4 :
+    Shapes.treenode_TreeNodeInstance_SendTo_b4 =
    ["if:(to==nil)", "return:xerrors.New(\"\")", "msgDispatchQueueMutex.Lock", "if:n.closing",
      "msgDispatchQueueMutex.Unlock", "return:xerrors.New(\"\")", "msgDispatchQueueMutex.Unlock",
-     "configMut.Lock", "if:!n.sentTo[]", "configMut.Unlock", "overlay.SendToTreeNode", "tx.add",
+     "configMut.Lock", "if:!n.sentTo[to.ID]", "assign:c=n.config", "assign:n.sentTo[to.ID]=true",
+     "configMut.Unlock", "overlay.SendToTreeNode",
+     "assign:sentLen,err:=n.overlay.SendToTreeNode(n.token,to,msg,n.protoIO,c)", "tx.add",
      "if:(err!=nil)", "return:xerrors.Errorf(\"\",err)", "return:nil"] := rfl
 
-theorem c09_shape_TreeNodeInstance_Broadcast :
-    Shapes.treenode_TreeNodeInstance_Broadcast =
-   ["n.List", "n.TreeNode", "node.Equal", "n.SendTo"] := rfl
+theorem c09_shape_TreeNodeInstance_Broadcast_b4 :
+    Shapes.treenode_TreeNodeInstance_Broadcast_b4 =
+   ["n.List", "range:_,node:=n.List(){", "if:!node.Equal(n.TreeNode())", "n.SendTo",
+     "assign:err:=n.SendTo(node,msg)", "if:(err!=nil)",
+     "assign:errs=append(errs,xerrors.Errorf(\"\",err))", "}", "return:errs"] := rfl
 
-theorem c09_shape_TreeNodeInstance_Multicast :
-    Shapes.treenode_TreeNodeInstance_Multicast =
-   ["n.SendTo"] := rfl
+theorem c09_shape_TreeNodeInstance_Multicast_b4 :
+    Shapes.treenode_TreeNodeInstance_Multicast_b4 =
+   ["range:_,node:=nodes{", "n.SendTo", "assign:err:=n.SendTo(node,msg)", "if:(err!=nil)",
+     "assign:errs=append(errs,xerrors.Errorf(\"\",err))", "}", "return:errs"] := rfl
 
-theorem c09_shape_TreeNodeInstance_SendToParent :
-    Shapes.treenode_TreeNodeInstance_SendToParent =
-   ["if:n.IsRoot()", "return:nil", "n.Parent", "n.SendTo", "if:(err!=nil)",
-     "return:xerrors.Errorf(\"\",err)", "return:nil"] := rfl
+theorem c09_shape_TreeNodeInstance_SendToParent_b4 :
+    Shapes.treenode_TreeNodeInstance_SendToParent_b4 =
+   ["if:n.IsRoot()", "return:nil", "n.Parent", "n.SendTo",
+     "assign:err:=n.SendTo(n.Parent(),msg)", "if:(err!=nil)", "return:xerrors.Errorf(\"\",err)",
+     "return:nil"] := rfl
 
-theorem c09_shape_TreeNodeInstance_SendToChildren :
-    Shapes.treenode_TreeNodeInstance_SendToChildren =
-   ["if:n.IsLeaf()", "return:nil", "n.Children", "n.SendTo", "if:(err!=nil)",
-     "return:xerrors.Errorf(\"\",err)", "return:nil"] := rfl
+theorem c09_shape_TreeNodeInstance_SendToChildren_b4 :
+    Shapes.treenode_TreeNodeInstance_SendToChildren_b4 =
+   ["if:n.IsLeaf()", "return:nil", "n.Children", "range:_,node:=n.Children(){", "n.SendTo",
+     "assign:err:=n.SendTo(node,msg)", "if:(err!=nil)", "return:xerrors.Errorf(\"\",err)", "}",
+     "return:nil"] := rfl
 
-theorem c09_shape_TreeNodeInstance_SendToChildrenInParallel :
-    Shapes.treenode_TreeNodeInstance_SendToChildrenInParallel =
-   ["n.IsLeaf", "n.Children", "node.Name", "wg.Add", "go{", "n.SendTo", "eMut.Lock",
-     "eMut.Unlock", "wg.Done", "}", "wg.Wait"] := rfl
+theorem c09_shape_TreeNodeInstance_SendToChildrenInParallel_b4 :
+    Shapes.treenode_TreeNodeInstance_SendToChildrenInParallel_b4 =
+   ["if:n.IsLeaf()", "return:nil", "n.Children", "assign:children:=n.Children()",
+     "assign:eMut:=sync.Mutex{}", "assign:wg:=sync.WaitGroup{}", "range:_,node:=children{",
+     "node.Name", "assign:name:=node.Name()", "wg.Add", "go{", "n.SendTo",
+     "assign:err:=n.SendTo(n2,msg)", "if:(err!=nil)", "eMut.Lock",
+     "assign:errs=append(errs,xerrors.Errorf(\"\",name,err))", "eMut.Unlock", "wg.Done", "}",
+     "}", "wg.Wait", "return:errs"] := rfl
 
-theorem c09_shape_Overlay_SendToTreeNode :
-    Shapes.overlay_Overlay_SendToTreeNode =
-   ["from.ChangeTreeNodeID", "if:(c!=nil)", "tokenTo.ID", "io.Wrap", "if:(err!=nil)",
-     "return:0,xerrors.Errorf(\"\",err)", "if:(confMsg!=nil)", "server.Send", "else",
-     "server.Send", "if:(err!=nil)", "return:sentLen,err"] := rfl
+theorem c09_shape_Overlay_SendToTreeNode_b4 :
+    Shapes.overlay_Overlay_SendToTreeNode_b4 =
+   ["from.ChangeTreeNodeID", "assign:tokenTo:=from.ChangeTreeNodeID(to.ID)", "if:(c!=nil)",
+     "tokenTo.ID", "assign:confMsg=&ConfigMsg{*c,tokenTo.ID()}",
+     "assign:info:=&OverlayMsg{Config:c,TreeNodeInfo:&TreeNodeInfo{From:from,To:tokenTo}}",
+     "io.Wrap", "assign:final,err:=io.Wrap(msg,info)", "if:(err!=nil)",
+     "return:0,xerrors.Errorf(\"\",err)", "if:(confMsg!=nil)", "server.Send",
+     "assign:sentLen,err=o.server.Send(to.ServerIdentity,confMsg,final)", "else", "server.Send",
+     "assign:sentLen,err=o.server.Send(to.ServerIdentity,final)", "if:(err!=nil)",
+     "assign:err=xerrors.Errorf(\"\",err)", "return:sentLen,err"] := rfl
 
-theorem c09_shape_Overlay_requestTree :
-    Shapes.overlay_Overlay_requestTree =
-   ["o.savePendingMsg", "verifPoint:rt.parked", "treeStorage.Get", "if:(tree!=nil)",
+theorem c09_shape_Overlay_requestTree_b4 :
+    Shapes.overlay_Overlay_requestTree_b4 =
+   ["o.savePendingMsg", "verifPoint:rt.parked", "treeStorage.Get",
+     "assign:tree:=o.treeStorage.Get(onetMsg.To.TreeID)", "if:(tree!=nil)",
      "o.checkPendingMessages", "return:nil", "verifPoint:rt.recheck-miss", "io.Wrap",
+     "assign:msg,err:=io.Wrap(nil,&OverlayMsg{RequestTree:&RequestTree{TreeID:onetMsg.To.TreeID,Version:1}})",
      "if:(err!=nil)", "return:xerrors.Errorf(\"\",err)",
      "if:o.treeStorage.IsRegistered(onetMsg.To.TreeID)", "return:nil",
      "verifPoint:rt.unregistered", "treeStorage.Register", "verifPoint:rt.registered",
-     "server.Send", "if:(err!=nil)", "treeStorage.Unregister", "return:xerrors.Errorf(\"\",err)",
-     "return:nil"] := rfl
+     "server.Send", "assign:_,err=o.server.Send(si,msg)", "if:(err!=nil)",
+     "treeStorage.Unregister", "return:xerrors.Errorf(\"\",err)", "return:nil"] := rfl
 
-theorem c09_shape_tcp_NewTCPConn :
-    Shapes.network_tcp_NewTCPConn =
-   ["addr.NetworkAddress", "net.DialTimeout", "if:(err==nil)", "return:",
-     "if:(i<MaxRetryConnect)", "time.Sleep", "if:(err==nil)", "return:"] := rfl
+theorem c09_shape_tcp_NewTCPConn_b4 :
+    Shapes.network_tcp_NewTCPConn_b4 =
+   ["addr.NetworkAddress", "assign:netAddr:=addr.NetworkAddress()", "assign:i:=1",
+     "for:(i<=MaxRetryConnect){", "net.DialTimeout",
+     "assign:c,err=net.DialTimeout(\"\",netAddr,dialTimeout)", "if:(err==nil)",
+     "assign:conn=&TCPConn{conn:c,suite:suite}", "return:",
+     "assign:err=xerrors.Errorf(\"\",err)", "if:(i<MaxRetryConnect)", "time.Sleep", "assign:i++",
+     "}", "if:(err==nil)", "assign:err=xerrors.Errorf(\"\",ErrTimeout)", "return:"] := rfl
 
 theorem c09_shape_tls_NewTLSConn :
     Shapes.network_tls_NewTLSConn =
    ["Address.ConnType", "us.GetPrivate", "tlsConfig", "makeVerifier", "Address.NetworkAddress",
      "tls.DialWithDialer", "time.Sleep"] := rfl
 
-theorem c09_shape_local_LocalHost_Connect :
-    Shapes.network_local_LocalHost_Connect =
-   ["if:(si.Address.ConnType()!=Local)", "return:nil,xerrors.New(\"\")",
-     "NewLocalConnWithManager", "if:(err==nil)", "return:c,nil", "recv:After()", "time.After",
-     "recv:stopping", "return:nil,finalErr", "return:nil,finalErr"] := rfl
+theorem c09_shape_local_LocalHost_Connect_b4 :
+    Shapes.network_local_LocalHost_Connect_b4 =
+   ["if:(si.Address.ConnType()!=Local)", "return:nil,xerrors.New(\"\")", "assign:i:=0",
+     "for:(i<MaxRetryConnect){", "NewLocalConnWithManager",
+     "assign:c,err:=NewLocalConnWithManager(lh.lm,lh.addr,si.Address,lh.suite)", "if:(err==nil)",
+     "return:c,nil", "assign:finalErr=xerrors.Errorf(\"\",err)", "recv:After()", "time.After",
+     "recv:stopping", "return:nil,finalErr", "assign:i++", "}", "return:nil,finalErr"] := rfl
 
-theorem c09_shape_local_NewLocalConnWithManager :
-    Shapes.network_local_NewLocalConnWithManager =
-   ["lm.connect", "if:(err==nil)", "return:c,nil", "else", "if:(i==(MaxRetryConnect-1))",
-     "return:nil,xerrors.Errorf(\"\",err)", "time.Sleep", "return:nil,xerrors.New(\"\")"] := rfl
+theorem c09_shape_local_NewLocalConnWithManager_b4 :
+    Shapes.network_local_NewLocalConnWithManager_b4 =
+   ["assign:i:=0", "for:(i<MaxRetryConnect){", "lm.connect",
+     "assign:c,err:=lm.connect(local,remote,s)", "if:(err==nil)", "return:c,nil", "else",
+     "if:(i==(MaxRetryConnect-1))", "return:nil,xerrors.Errorf(\"\",err)", "time.Sleep",
+     "assign:i++", "}", "return:nil,xerrors.New(\"\")"] := rfl
 
-theorem c09_shape_local_LocalManager_send :
-    Shapes.network_local_LocalManager_send =
-   ["lm.Lock", "defer:lm.Unlock", "send:incomingQueue"] := rfl
+theorem c09_shape_local_LocalManager_send_b4 :
+    Shapes.network_local_LocalManager_send_b4 =
+   ["lm.Lock", "defer:lm.Unlock", "assign:q,ok:=lm.conns[e]", "if:!ok",
+     "return:xerrors.Errorf(\"\",ErrClosed)", "send:incomingQueue", "return:nil"] := rfl
+
+theorem c09_shape_router_Router_connection_b4 :
+    Shapes.network_router_Router_connection_b4 =
+   ["r.Lock", "defer:r.Unlock", "assign:arr:=r.connections[sid]", "if:(len(arr)==0)",
+     "return:nil", "return:arr[0]"] := rfl
+
+theorem c09_shape_tcp_handleError_b4 :
+    Shapes.network_tcp_handleError_b4 =
+   ["if:(strings.Contains(err.Error(),\"\")||strings.Contains(err.Error(),\"\"))",
+     "return:ErrClosed", "else", "if:strings.Contains(err.Error(),\"\")", "return:ErrCanceled",
+     "else", "if:((err==io.EOF)||strings.Contains(err.Error(),\"\"))", "return:ErrEOF",
+     "assign:netErr,ok:=err.(net.Error)", "if:!ok", "return:ErrUnknown", "if:netErr.Timeout()",
+     "return:ErrTimeout", "if:strings.Contains(err.Error(),\"\")", "else", "return:ErrUnknown"] := rfl
+
+theorem c09_shape_local_LocalManager_close_b4 :
+    Shapes.network_local_LocalManager_close_b4 =
+   ["lm.Lock", "defer:lm.Unlock", "assign:_,ok:=lm.conns[conn.local]", "if:!ok",
+     "return:xerrors.Errorf(\"\",ErrClosed)", "conn.closeChannels",
+     "assign:remote,ok:=lm.conns[conn.remote]", "if:!ok", "return:nil", "remote.closeChannels",
+     "return:nil"] := rfl
 
 
 end C09
